@@ -9,6 +9,8 @@ CONSTANTS
   Seed = TRUE
   EarliestLow = FALSE
   Guard = TRUE
+  Tendermint = FALSE
+  ZeroOk = FALSE
 INIT TInit
 NEXT TNext
 POSTCONDITION Post
